@@ -53,6 +53,11 @@ def grid(tier):
                                 if (mi + hi + 2 * ti + ri + bi + 2 * oi) % 3 != 0:
                                     continue
                             out.append(dict(model=m, heuristic=h, tol=t, reg=rg, backend=be, mode=mode))
+    # the library's other solver (the one its default path ends up with), run to high accuracy so that the stated tolerance is observable
+    for m in ("ppa", "lmi", "quad"):
+        for h in ("trace", "logdet1"):
+            for t in (1e-4, 1e-2):
+                out.append(dict(model=m, heuristic=h, tol=t, reg=1e-3, backend="cvxpy", mode="primal", solver="SCS"))
     return out
 
 
@@ -75,7 +80,13 @@ def judge(case):
     ctx = models.build(MODELS[case["model"]])
     pep = ctx.pep
     with REC.recording():
-        r = solving.solve(pep, backend=be, mode=case["mode"], dr=case["heuristic"], tol_dr=case["tol"], reg=case["reg"])
+        if case.get("solver") == "SCS":
+            r = solving.solve(pep, backend=be, mode=case["mode"], dr=case["heuristic"], tol_dr=case["tol"], reg=case["reg"],
+                              solver="SCS", extra={"eps": 1e-10, "max_iters": 200000})
+            if r["exc"] is None and any(st_ != "optimal" for st_ in r.get("statuses", [])):
+                return [], "scs-not-converged"
+        else:
+            r = solving.solve(pep, backend=be, mode=case["mode"], dr=case["heuristic"], tol_dr=case["tol"], reg=case["reg"])
     if r["exc"] is not None:
         n = type(r["exc"]).__name__
         if n == "SolverError":
